@@ -92,6 +92,29 @@ pub fn run(case: &Value, _seed: u64) -> Outcome {
             "YesNoForce" => keyword::<apt_sources::YesNoForce>(&mut o, ty, kw, acc, |v| String::from(v), &feats),
             _ => {}
         }
+        // look-alikes of a documented keyword: one letter replaced by a character that Unicode case conversion maps to or
+        // near it (dotless / dotted i, long s, Kelvin sign), by its full-width form or by a Cyrillic homoglyph - none is
+        // in the defined set, whatever case folding the reader applies
+        if acc {
+            let subs = |c: char| -> Vec<char> { let mut v: Vec<char> = match c { 'i' => vec!['\u{131}'], 'I' => vec!['\u{130}'], 's' => vec!['\u{17f}'], 'k' | 'K' => vec!['\u{212a}'], 'o' => vec!['\u{43e}'], 'a' => vec!['\u{430}'], 'e' => vec!['\u{435}'], 'c' => vec!['\u{441}'], 'p' => vec!['\u{440}'], _ => vec![] };
+                if c.is_ascii_alphabetic() { v.push(char::from_u32(0xFF00 + (c as u32 - 0x20)).unwrap()); } v };
+            let chars: Vec<char> = kw.chars().collect();
+            for (i, c) in chars.iter().enumerate() {
+                for r in subs(*c) {
+                    let mut m = chars.clone(); m[i] = r; let look: String = m.into_iter().collect();
+                    match ty {
+                        "Priority" => keyword::<Priority>(&mut o, ty, &look, false, |v| v.to_string(), &feats),
+                        "MultiArch" => keyword::<MultiArch>(&mut o, ty, &look, false, |v| v.to_string(), &feats),
+                        "Urgency" => keyword::<Urgency>(&mut o, ty, &look, false, |v| v.to_string(), &feats),
+                        "VersionConstraint" => keyword::<debian_control::relations::VersionConstraint>(&mut o, ty, &look, false, |v| v.to_string(), &feats),
+                        "OriginCategory" => keyword::<dep3::OriginCategory>(&mut o, ty, &look, false, |v| v.to_string(), &feats),
+                        "RepositoryType" => keyword::<apt_sources::RepositoryType>(&mut o, ty, &look, false, |v| v.to_string(), &feats),
+                        "YesNoForce" => keyword::<apt_sources::YesNoForce>(&mut o, ty, &look, false, |v| String::from(v), &feats),
+                        _ => {}
+                    }
+                }
+            }
+        }
         if o.sample.is_null() { o.sample = json!({"type": ty, "keyword": kw, "must_accept": acc}); }
         return o;
     }
